@@ -408,7 +408,7 @@ PANIC_FNS = ('std::panicking::', 'std::rt::begin_panic', 'std::rt::panic_fmt', '
              'std::rt::panic_display', 'std::intrinsics::unreachable', 'std::intrinsics::abort')
 
 
-SOFT_WORLDS = 600
+SOFT_WORLDS = 250
 
 
 class Evaluator:
@@ -420,7 +420,14 @@ class Evaluator:
     # ------------------------------------------------------------------ driver
     def run_fn(self, path, args, assumptions=None):
         """Evaluate fn `path` on argument terms; returns list of World."""
-        return self.run(lambda st: st.call_path(path, list(args), None), assumptions)
+        # helpers that had to be made opaque when this root was evaluated before (see run) stay opaque: no second explosion
+        memo = self.f.__dict__.setdefault('_demoted_for', {})
+        self.policy.demoted |= memo.get(path, set())
+        try:
+            return self.run(lambda st: st.call_path(path, list(args), None), assumptions)
+        finally:
+            if self.policy.demoted:
+                memo.setdefault(path, set()).update(self.policy.demoted)
 
     def run_node(self, fn_path, node, env, assumptions=None):
         """evaluate one HIR node of fn_path in a prepared environment (local id -> term)"""
@@ -1876,7 +1883,13 @@ class State:
                 continue
             last = result[1].split('::')[-1]
             if old[0] in ('list', 'seq') and (last.startswith('sort') or last in ('reverse', 'shrink_to_fit', 'reserve')):
-                continue     # reorders / reserves only: the abstract collection is unchanged
+                # reorders / reserves only: the abstract collection (its generic element) is unchanged; the reordering is
+                # recorded so that rules about flows whose order carries meaning can object to it
+                if last not in ('shrink_to_fit', 'reserve'):
+                    self.effect('reorder', result[1], (old,), e)
+                if last == 'reverse' and old[0] == 'list':
+                    env[vid] = ('list', tuple(reversed(old[1])))     # a concrete list is reversed concretely
+                continue
             self.mutseq += 1
             env[vid] = ('call', 'after', (old, ('lit', result[1].split('::')[-1], ''), ('lit', self.mutseq, '#')))
 
@@ -1924,6 +1937,15 @@ class State:
         r = self.do_call(callee, args, e, trait=e.get('trait'), recv_ty=e.get('recv_ty'), method=e.get('method'))
         if self.last_opaque is not None and self.last_opaque is r:
             self.havoc_after_opaque(e, env, r)
+            # an in-place rewrite of a collection that sits in a field of something we only hold a reference to
+            # (`record.bytes.reverse()`): observable like an assignment to that field
+            place = strip_place(recv_node)
+            last = (e.get('method') or (callee or '').split('::')[-1])
+            if place.get('k') == 'Field' and last in INPLACE_REWRITES and not self.policy.is_effect(norm_path(callee or '')):
+                base = self.refine(self.expr(place['e'], env))
+                if base[0] != 'ctor':
+                    self.mutseq += 1
+                    self.effect('store', show_place(place), (base, ('call', 'after', (recv, ('lit', last, ''), ('lit', self.mutseq, '#')))), e)
         return r
 
     def e_ConstBlock(self, e, env):
@@ -1935,6 +1957,9 @@ class State:
 
 
 NOTBUILTIN = object()
+INPLACE_REWRITES = {'reverse', 'sort', 'sort_unstable', 'sort_by', 'sort_by_key', 'sort_unstable_by', 'sort_unstable_by_key', 'swap',
+                    'rotate_left', 'rotate_right', 'truncate', 'clear', 'retain', 'dedup', 'dedup_by', 'dedup_by_key', 'drain',
+                    'remove', 'swap_remove', 'pop', 'fill', 'make_ascii_lowercase', 'make_ascii_uppercase', 'split_off'}
 
 
 def assigned_fields(node):
